@@ -7,7 +7,8 @@ from pwv import core, dwtu
 from pwv.core import Result, lib
 
 ID = 'C01'
-RULE = ('Hypothesis draws (dim, wavelet by family then member, mode, J, size '
+RULE = ('[one free case in 200 is a batch of 2-4 million samples with short filters, dense comparison only] ' +
+        'Hypothesis draws (dim, wavelet by family then member, mode, J, size '
         'built around filter length / powers of two / odd twins, N, C, dtype, '
         'content recipes); oracle = pywt.wavedec/wavedec2 on the full extracted '
         'operator (basis inputs) and on dense inputs. Non-trivial = not (db1/haar '
@@ -87,8 +88,25 @@ def _case(draw, unit):
     }
 
 
+MILLIONS2 = [(4, 4, 512, 512), (16, 2, 256, 512), (1, 3, 1024, 1024), (2, 3, 512, 1000), (8, 8, 255, 257)]
+MILLIONS1 = [(4, 4, 2 ** 18), (1, 3, 10 ** 6), (32, 2, 2 ** 16 + 1)]
+
+
+@st.composite
+def _case_or_millions(draw, unit):
+    case = draw(_case(unit))
+    if 'wave' not in unit and draw(st.integers(0, 199)) == 0:
+        # occasionally a batch of several million samples (where an implementation may start to work in chunks):
+        # short filters, few levels, dense comparison and two operator columns only
+        w = draw(dwtu.wavelet_strategy(max_len=8))
+        shp = draw(st.sampled_from(MILLIONS1 if case['dim'] == 1 else MILLIONS2))
+        case.update({'wave': w, 'wave_row': None, 'J': min(case['J'], 3), 'N': shp[0], 'C': shp[1], 'size': list(shp[2:]),
+                     'reused': False, 'millions': True})
+    return case
+
+
 def strategy(unit):
-    return _case(unit)
+    return _case_or_millions(unit)
 
 
 def wave_arg(case, kind='dec'):
@@ -205,7 +223,8 @@ def run_case(case):
 
     # ---- 1. the whole operator, from basis inputs (one batched call)
     ntot = int(np.prod(size))
-    M, full = dwtu.basis_rows(ntot, case['k'], cap=dwtu.op_cap(dim, L))
+    M, full = dwtu.basis_rows(ntot, case['k'], cap=dwtu.op_cap(dim, L), sub=2 if case.get('millions') else 48)
+    r.label('millions_of_samples' if case.get('millions') else None)
     B = M.reshape([M.shape[0]] + size)       # (n, *size)
     r.label('full_operator' if full else 'operator_column_subset')
     X = torch.tensor(B[:, None], dtype=tdt)  # (n, 1, *size)
